@@ -13,7 +13,7 @@ model, impl = ec.build()
 hist = []
 src = {}
 for i in range(n):
-    lines = histories.history(seed0 + i, nops)
+    lines = histories.history(seed0 + i, nops, os.environ.get('PROFILE','basic'))
     src[str(i)] = lines
     hist.append((str(i), ec.history_text(str(i), lines, dump=dump)))
 mo = ec.run_all(model, hist)
